@@ -146,6 +146,15 @@ func NewWorld(sy *Symb, c WorldCfg) *World {
 		p := utreexo.NewAccumulator()
 		w.insts = append(w.insts, &Inst{Name: "pollard", Kind: KPollard, P: &p})
 	}
+	// the same forests on storage back-ends that are not the library's own maps
+	if c.MapFull {
+		w.insts = append(w.insts, &Inst{Name: "map.full.63.custom", Kind: KMapFull, Rows: 63, M: newMapCustom(true, 63)},
+			&Inst{Name: "map.full.0.custom", Kind: KMapFull, Rows: 0, M: newMapCustom(true, 0)})
+	}
+	if c.MapPart {
+		w.insts = append(w.insts, &Inst{Name: "map.part.63.custom", Kind: KMapPart, Rows: 63, M: newMapCustom(false, 63), cached: map[int]bool{}},
+			&Inst{Name: "map.part.0.custom", Kind: KMapPart, Rows: 0, M: newMapCustom(false, 0), cached: map[int]bool{}})
+	}
 	for _, r := range c.Rows {
 		if c.MapFull {
 			w.insts = append(w.insts, &Inst{Name: fmt.Sprintf("map.full.%d", r), Kind: KMapFull, Rows: r, M: newMap(true, r)})
